@@ -8,7 +8,7 @@ From Coq Require Import String List ZArith NArith Bool.
 Import ListNotations.
 From OV Require Import Base.Bytes Base.Tree Gen.Conv Model.Value Model.XPathFrag Model.Decl Model.Eval.
 From OV Require Import Proofs.Value Proofs.ValuePrint Proofs.ValueOrder Proofs.Validate Proofs.ValidateWf Proofs.EvalPure Proofs.EvalCache
-     Proofs.EvalSpec Proofs.ValidateSpec Proofs.EvalFull Proofs.EvalOrder Proofs.EvalExamples.
+     Proofs.EvalSpec Proofs.ValidateSpec Proofs.EvalFull Proofs.EvalOrder Proofs.EvalCorners Proofs.EvalExamples.
 
 Section C02.
   Variable root : tree.
@@ -211,3 +211,23 @@ Theorem spec_order_independent : forall root query ext fsigs fcall pcall d,
   decl_nodup d = true -> forall a p,
   spec_tf root query ext fsigs fcall pcall (osort d) a p = spec_tf root query ext fsigs fcall pcall d a p.
 Proof. exact spec_tf_osort. Qed.
+
+(* Corners.  An xpath_dynamic that cannot be computed (its declaration fails, or yields nil, a
+   non-string or a blank string) gives the anchored declaration the null result: it never fails
+   the record (undocumented; the spec follows the implementation here). *)
+Theorem xpath_dynamic_failure_is_null : forall root query ext fsigs fcall pcall i q ks p,
+  anchoring_kind (p_kind (v_pub i)) = true ->
+  needed i true = true ->
+  static_xpath (einfo_of i true) = None ->
+  (forall s, eval_nocache root query ext fsigs fcall pcall q p = Ok (VStr s) -> is_nonblank s = false) ->
+  eval_nocache root query ext fsigs fcall pcall q p <> Panic ->
+  eval_nocache root query ext fsigs fcall pcall (VD i (Some q) ks) p = Ok VNil.
+Proof. exact xpath_dynamic_failure_is_null. Qed.
+
+(* ignore_error turns a failing custom function into the null result; without it the record fails. *)
+Theorem ignore_error_corner : forall root query ext fsigs fcall pcall i name p,
+  p_kind (v_pub i) = KCustomFunc -> p_fname (v_pub i) = Some name ->
+  needed i false = false ->
+  fsigs name = Some (mkSig [] None) -> fcall name p [] = CfErr ->
+  eval_nocache root query ext fsigs fcall pcall (VD i None []) p = if p_ignore (v_pub i) then Ok VNil else Err.
+Proof. exact ignore_error_corner. Qed.
